@@ -489,7 +489,14 @@ fn sequences(pool: &[&str], max_len: usize, tail: &str, emit: Emit) -> bool {
 fn g_queue(seed: u64, emit0: Emit) {
     let deep = scale_of(seed) > 1;
     // every sequence on the logging device (order of reports) and on the device that owns the crate's queue directly
-    let emit: Emit = &mut |sc: Scenario| -> bool { let input = sc.input.clone(); emit0(sc) && emit0(Scenario { mode: Mode::RunRaw, input, whole: false, base: None }) };
+    let mut cnt = 0u64;
+    let emit: Emit = &mut |sc: Scenario| -> bool {
+        let input = sc.input.clone();
+        cnt += 1;
+        // capacity 3 always; capacities 1, 2 and 5 in turn
+        let other = [1usize, 2, 5][(cnt % 3) as usize];
+        emit0(sc) && emit0(Scenario { mode: Mode::RunRaw(3), input: input.clone(), whole: false, base: None }) && emit0(Scenario { mode: Mode::RunRaw(other), input, whole: false, base: None })
+    };
     if !sequences(QOPS, 4, "", emit) { return; }
     // thorough: sequences of up to 10 operations (1 398 100)
     if !sequences(QATOMS, if deep { 10 } else { 9 }, DRAIN, emit) { return; }
@@ -632,7 +639,7 @@ pub const FAMILIES: &[Family] = &[
     Family { name: "containers", props: &["C08"], kinds: &["handler", "args", "error", "rest", "panic", "hang"], gen: g_containers,
         bound: "payloads of 1..=3 (thorough tier: 1..=4) bytes from 12 special bytes in strings of both quote kinds and blocks, 6 message shapes (incl. a relative unit behind a compound unit); run whole and process (N = 64) with a read boundary at every position; reference = one run over the whole stream" },
     Family { name: "queue", props: &["C09"], kinds: &["queue", "error", "response", "handler", "panic", "hang"], gen: g_queue,
-        bound: "queue of capacity 3: every sequence of 1..=4 operations from a pool of 15 (54 240); every sequence of 1..=9 operations from {undefined header, handler error, ERRor?, COUNt?} followed by a drain (349 524); every error number -420..=60 raised and read back; each on the logging device and on the device that owns StaticErrorQueue directly; thorough tier: sequences of up to 10 operations" },
+        bound: "queue of capacity 3: every sequence of 1..=4 operations from a pool of 15 (54 240); every sequence of 1..=9 operations from {undefined header, handler error, ERRor?, COUNt?} followed by a drain (349 524); every error number -420..=60 raised and read back; each on the logging device and on devices that own StaticErrorQueue<N> directly (N = 3, and 1, 2, 5 in turn); thorough tier: sequences of up to 10 operations" },
     Family { name: "transport", props: &["C10"], kinds: &["transport", "panic", "hang"], gen: g_transport,
         bound: "29 streams x N in {8,32} x 4 chunkings (one with empty reads) x a transport error at every call index (and none)" },
     Family { name: "lexical", props: &["C11"], kinds: &["handler", "args", "error", "response", "rest", "panic", "hang"], gen: g_lexical,
